@@ -107,6 +107,56 @@ Definition case1_ok (c : case1) : bool :=
   && onat_eqb (option_map fst (p_perr _ _ _ _ _ s)) perr
   && Nat.eqb (length (p_consumed _ _ _ _ _ s)) consumed.
 
+(* ---------- level 1, sequence numbers around the 2^32 wrap or further apart than 2^24 ----------
+   The same composition with the reassembler ordered by the SOURCE's comparison ([rstep_by seq_less], Model/AuditProc.v):
+   the harness uses it for streams whose numbers form two clusters (either side of the wrap, or two groups further apart
+   than 2^24-1), where sequenceNumSlice.Less is a strict total order that is not the plain one.  Inside a window
+   [rstep_by seq_less = rstep] (Proofs/ReassemblerIRTie.v), so this is the check above for every other stream. *)
+Section L1By.
+  Variables (maxsz timeout : nat) (failat : list nat).
+
+  Definition reass1_by (s : pst1) (o : rop cm) : pst1 :=
+    let '(r', ev, lost) := rstep_by cm c_seq c_ty seq_less maxsz timeout (p_r _ _ _ _ _ s) o in
+    {| p_r := r';
+       p_cb := callback cm ev1 nat nat coalesce1 old1 (audit1 failat) (p_cb _ _ _ _ _ s) ev lost;
+       p_perr := p_perr _ _ _ _ _ s; p_consumed := p_consumed _ _ _ _ _ s;
+       p_ops := p_ops _ _ _ _ _ s ++ [o] |}.
+
+  Definition on_line1_by (now : nat) (l : iline) (s : pst1) : pst1 :=
+    let s := consume iline cm ev1 nat nat l s in
+    if c_empty l then s else
+    match c_parse l with
+    | None => set_perr iline cm ev1 nat nat l s
+    | Some m => reass1_by s (RPush now m)
+    end.
+
+  Fixpoint l1_go_by (s : pst1) (now idx : nat) (items : list item1) : pst1 :=
+    match p_perr _ _ _ _ _ s with
+    | Some _ => s
+    | None =>
+        match items with
+        | [] => s
+        | K1Line c :: r => l1_go_by (on_line1_by now (idx, c) s) now (S idx) r
+        | K1Tick :: r => l1_go_by (reass1_by s (RMaintain now)) now idx r
+        | K1Pause :: r => l1_go_by s (now + timeout + 1) idx r
+        end
+    end.
+
+  Definition l1_final_by (items : list item1) : pst1 :=
+    reass1_by (l1_go_by (pinit iline cm ev1 nat nat 0) 0 0 items) RClose.
+End L1By.
+
+Definition case1_ok_by (c : case1) : bool :=
+  let '(C1 maxsz timeout failat items groups handed slot lost perr consumed) := c in
+  let s := l1_final_by maxsz timeout failat items in
+  let cbs := p_cb _ _ _ _ _ s in
+  list_eqb nat_list_eqb (map (map c_idx) (cb_groups _ _ _ _ cbs)) groups
+  && nat_list_eqb (map head_idx (cb_handed _ _ _ _ cbs)) handed
+  && onat_eqb (slot_code (cb_slot _ _ _ _ cbs)) slot
+  && list_eqb N.eqb (cb_lost _ _ _ _ cbs) lost
+  && onat_eqb (option_map fst (p_perr _ _ _ _ _ s)) perr
+  && Nat.eqb (length (p_consumed _ _ _ _ _ s)) consumed.
+
 (* ---------- level 2 ---------- *)
 Definition as2 := (tstate * nat)%type.        (* correlator state, number of events written *)
 
@@ -176,10 +226,10 @@ Definition case2_ok (c : case2) : bool :=
   Nat.eqb (fst rc) res && Nat.eqb (snd rc) arg
   && Nat.eqb (snd (cb_as _ _ _ _ (p_cb _ _ _ _ _ (o_fin _ _ _ _ _ o)))) written.
 
-Inductive acase := A1 (c : case1) | A2 (c : case2).
+Inductive acase := A1 (c : case1) | A1W (c : case1) | A2 (c : case2).
 
 Definition acase_ok (c : acase) : bool :=
-  match c with A1 c => case1_ok c | A2 c => case2_ok c end.
+  match c with A1 c => case1_ok c | A1W c => case1_ok_by c | A2 c => case2_ok c end.
 
 Fixpoint mism_from {A} (f : A -> bool) (i : nat) (cs : list A) : list nat :=
   match cs with
